@@ -67,7 +67,12 @@ def _freeze(p):
     return ("poly", tuple(sorted(p.items(), key=repr)))
 
 
+EXPAND = None      # set by the framework to mir.expand_local_calls for the fact base in use: formulas see through small helpers
+
+
 def _pdict(t):
+    if EXPAND is not None and isinstance(t, tuple) and t and ((t[0] == "call" and not (t[1] or "").startswith("core::")) or (t[0] == "place" and len(t[2]) >= 2 and str(t[2][0]).startswith("as:"))):
+        t = EXPAND(t)
     t0 = t
     k = t[0]
     if k == "c" and isinstance(t[1], int) and not isinstance(t[1], bool):
